@@ -234,6 +234,16 @@ method("_merge_topic_metadata",
               "for#1/for#1": dict(index="pi", inv=["topic in self.topic_partitions"],
                                   heap_modifies=["KafkaClient.topic_partitions", "KafkaClient.partition_meta",
                                                  "KafkaClient.topics_to_brokers"])},
-       checkpoints={"iteration-end:for#1": {
+       checkpoints={
+           # C07/C08: the routing cache says, for every partition of the answer, the broker the answer names as its leader
+           # (None for a partition without a leader) and keeps the partition's metadata
+           "iteration-end:for#1/for#1": {
+               "leader-recorded[C07, C08]":
+                   "TopicAndPartition(topic, partition) in self.topics_to_brokers and "
+                   "implies(meta.leader == -1, self.topics_to_brokers[TopicAndPartition(topic, partition)] is None) and "
+                   "implies(meta.leader != -1, self.topics_to_brokers[TopicAndPartition(topic, partition)] == brokers[meta.leader])",
+               "partition-metadata-recorded[C08]": "TopicAndPartition(topic, partition) in self.partition_meta and "
+                                                   "self.partition_meta[TopicAndPartition(topic, partition)] == meta"},
+           "iteration-end:for#1": {
            "partition-list-ascending[C18]": "implies(topic in self.topic_partitions, is_asc(self.topic_partitions[topic]))",
            "topic-error-recorded[C08]": "topic in self.topic_errors and self.topic_errors[topic] == topics[topic].topic_error_code"}})
